@@ -5,6 +5,7 @@ package main
 
 import (
 	"fmt"
+	"strings"
 
 	"verifharness/internal/vl"
 )
@@ -386,7 +387,7 @@ func catalogue() []Edit {
 	for _, form := range []string{"plain", "sel_unknown", "enum_value_unknown", "inc_unknown", "inc_enum_value_unknown", "inc_unknown_enum"} {
 		for _, site := range []string{"const", "field_default", "list_elem", "map_value", "arg_default"} {
 			form, site := form, site
-			add("undefined_const", form+"/"+site, func(p *GProg, fi int) bool {
+			e := add("undefined_const", form+"/"+site, func(p *GProg, fi int) bool {
 				f := p.Files[fi]
 				pre, inc := incPrefix(p, f)
 				var id string
@@ -430,6 +431,8 @@ func catalogue() []Edit {
 				}
 				return true
 			})
+			// ResolveFunction does not look at the defaults of arguments: only the backend trips over them
+			e.BackendBad = site == "arg_default"
 		}
 	}
 	add("ambiguous_const", "enum_named_like_include", func(p *GProg, fi int) bool {
@@ -568,7 +571,12 @@ func catalogue() []Edit {
 	}
 	e = add("syntax_error", "truncated_file", func(p *GProg, fi int) bool {
 		f := p.Files[fi]
-		f.Truncate = len(f.Render()) * 2 / 3
+		txt := f.Render()
+		i := strings.LastIndex(txt, "{")
+		if i < 0 {
+			return false
+		}
+		f.Truncate = i + 2 // "… {" and one more byte: an unclosed block
 		return true
 	})
 	e.SyntaxBad = true
@@ -656,12 +664,17 @@ func buildCases(baseName string, mk func() *GProg, r *vl.Rng, exhaustive bool, p
 		}
 		c := &Case{Base: baseName, Rule: e.Rule, Variant: e.Variant, Pos: pos, Prog: p, BaseProg: b, SyntaxBad: e.SyntaxBad, BackendBad: e.BackendBad}
 		// the backend only types the constants of files it builds a scope for
-		c.Recursive = e.BackendBad && pos != "main" || (!e.BackendBad && r.Chance(30))
+		c.Recursive = e.BackendBad && pos != "main" || (!e.BackendBad && !exhaustive && r.Chance(30))
 		return c
 	}
+	// each run of the stack-overflow candidate grows a 1 GB stack: one position per variant
+	crashPos := map[string]string{"const": "main", "field_default": "inc", "via_chain": "deep"}
 	if exhaustive {
 		for _, e := range cat {
 			for _, pos := range posOrder {
+				if e.Rule == "typedef_cycle_const_ident" && crashPos[e.Variant] != pos {
+					continue
+				}
 				if c := try(e, pos); c != nil {
 					out = append(out, c)
 				}
@@ -671,6 +684,9 @@ func buildCases(baseName string, mk func() *GProg, r *vl.Rng, exhaustive bool, p
 		for _, rule := range rules {
 			ids := byRule[rule]
 			got := 0
+			if rule == "typedef_cycle_const_ident" && !r.Chance(25) {
+				continue
+			}
 			for attempt := 0; attempt < 12 && got < perRule; attempt++ {
 				e := cat[ids[r.Intn(len(ids))]]
 				pos := posOrder[r.Intn(len(posOrder))]
